@@ -136,6 +136,12 @@ impl Scenario for C18 {
         };
         let mut p = p;
         p.same_number = !behaviours && r.chance(1, 5);
+        if r.chance(1, 60) {
+            // a crowd of watchers around one process that fails: n_procs carries the crowd's size
+            p.kind = "crowd".to_string();
+            p.n_procs = r.range(17, 150) as u32;
+            p.same_number = false;
+        }
         serde_json::to_value(p).unwrap()
     }
 
@@ -144,6 +150,14 @@ impl Scenario for C18 {
             Ok(p) => p,
             Err(_) => return RunOutput::default(),
         };
+        if p.kind == "crowd" {
+            if p.n_procs < 1 || p.n_procs > 400 {
+                return RunOutput::default();
+            }
+            let world = World::new(tape, keep, p.salt);
+            let ex = execute(&world, 6 * 3_600_000, |w| async move { crowd(&w, &p).await });
+            return finish(&world, &ex, true);
+        }
         if p.n_procs < 2 || p.n_procs > 8 || p.n_names == 0 || p.n_names > 4 || p.tasks.is_empty() || p.tasks.len() > 6 {
             return RunOutput::default();
         }
@@ -165,7 +179,7 @@ impl Scenario for C18 {
             components_stubbed: &["EPMD (stub; Node::start must register first)", "Process handlers (instrumented recorders; the behaviour callbacks are instrumented too)"],
             assumptions: &["link/unlink operations on one pair and monitor/demonitor operations on one (watcher, target) pair are issued by a single driver task, so their order is known; everything else is concurrent", "a process's death is an interval from the failing handler event to the drop of the process object; operations overlapping it may or may not take effect"],
             fault_prefixes: &["fault.", "proc."],
-            expected_probes: &["probe.c18.delivered", "probe.c18.exit_notified", "probe.c18.monitor_notified", "probe.c18.no_notice_after_unlink", "probe.c18.dead_pid_rejected", "probe.c18.name_of_dead_process_free", "probe.c18.name_history_linearizable", "probe.c18.send_name_delivered", "probe.c18.backpressure_burst", "probe.c18.gen_call_replied", "probe.c18.gen_event_notified", "probe.c18.spawned_mid_history", "probe.c18.stale_identifier_used", "probe.c18.notice_after_long_full_mailbox", "probe.c18.monitors_2_pow_k_references_apart", "probe.c18.call_in_the_name_of_a_failed_client", "probe.c18.sent_through_the_process_handle", "probe.c18.live_processes_with_the_same_number"],
+            expected_probes: &["probe.c18.crowd_of_watchers", "probe.c18.more_than_16_links", "probe.c18.more_than_16_monitors", "probe.c18.delivered", "probe.c18.exit_notified", "probe.c18.monitor_notified", "probe.c18.no_notice_after_unlink", "probe.c18.dead_pid_rejected", "probe.c18.name_of_dead_process_free", "probe.c18.name_history_linearizable", "probe.c18.send_name_delivered", "probe.c18.backpressure_burst", "probe.c18.gen_call_replied", "probe.c18.gen_event_notified", "probe.c18.spawned_mid_history", "probe.c18.stale_identifier_used", "probe.c18.notice_after_long_full_mailbox", "probe.c18.monitors_2_pow_k_references_apart", "probe.c18.call_in_the_name_of_a_failed_client", "probe.c18.sent_through_the_process_handle", "probe.c18.live_processes_with_the_same_number"],
         }
     }
 }
@@ -288,6 +302,117 @@ fn k_index_base(_k: u32, round: usize, n_ops: usize) -> usize {
 
 fn body_for(task: usize, k: usize, n: usize, target: &str) -> Val {
     Val::tuple(vec![Val::atom("m"), Val::int(task as i128), Val::int(k as i128), Val::int(n as i128), Val::atom(target)])
+}
+
+/// One process with a crowd of 17..150 others around it, each linked to it, monitoring it, both (some monitor it
+/// twice) or neither; some are let go of again (unlink, demonitor). Then it fails. Every watcher still attached
+/// hears of it exactly once per link and once per monitor reference, and nobody else hears anything.
+async fn crowd(w: &Arc<World>, p: &Plan) {
+    let node = match start_node(w, 5).await {
+        Ok(n) => Arc::new(n),
+        Err(e) => {
+            w.violation("HARNESS-setup", e);
+            return;
+        }
+    };
+    let hist: Hist = Arc::new(Mutex::new(History::default()));
+    let n = p.n_procs as usize;
+    let mut r = Rng::new(p.salt ^ 0xc20d);
+    let mut pids = Vec::new();
+    for i in 0..=n {
+        match node.spawn(Rec { idx: i, hist: hist.clone(), world: w.clone(), stall_16: p.proc_stall_16 }).await {
+            Ok(pid) => pids.push(pid),
+            Err(e) => {
+                w.violation("HARNESS-setup", format!("spawn: {}", e));
+                return;
+            }
+        }
+    }
+    w.set_yield_cfg(YieldCfg { intensity: p.yield_intensity, site_mask: p.yield_mask, max_sleep_ms: p.yield_sleep_ms });
+    let target = pids[0].clone();
+    // per watcher: linked?, monitor references still in force
+    let mut linked = vec![false; n + 1];
+    let mut mons: Vec<Vec<ExternalReference>> = vec![Vec::new(); n + 1];
+    for i in 1..=n {
+        let mode = r.below(8);
+        if mode <= 4 {
+            // either direction attaches the pair
+            let res = if r.chance(1, 2) { node.link(&pids[i], &target).await } else { node.link(&target, &pids[i]).await };
+            if res.is_ok() {
+                linked[i] = true;
+            }
+        }
+        if mode >= 2 {
+            for _ in 0..(if r.chance(1, 6) { 2 } else { 1 }) {
+                if let Ok(rf) = node.monitor(&pids[i], &target).await {
+                    mons[i].push(rf);
+                }
+            }
+        }
+        if r.chance(1, 10) && linked[i] && node.unlink(&pids[i], &target).await.is_ok() {
+            linked[i] = false;
+        }
+        if r.chance(1, 10) && !mons[i].is_empty() {
+            let rf = mons[i].pop().unwrap();
+            if node.demonitor(&pids[i], &target, &rf).await.is_err() {
+                mons[i].push(rf);
+            }
+        }
+    }
+    w.stat("probe.c18.crowd_of_watchers");
+    if linked.iter().filter(|l| **l).count() > 16 {
+        w.stat("probe.c18.more_than_16_links");
+    }
+    if mons.iter().map(|m| m.len()).sum::<usize>() > 16 {
+        w.stat("probe.c18.more_than_16_monitors");
+    }
+    if node.send(&target, from_val(&poison())).await.is_err() {
+        w.violation("HARNESS-setup", "the process to fail did not take its last message".to_string());
+        return;
+    }
+    // quiescence: everybody has been told, the process is gone
+    for _ in 0..60_000 {
+        if node.process_count().await <= n {
+            break;
+        }
+        tokio::time::sleep(Duration::from_millis(1)).await;
+    }
+    tokio::time::sleep(Duration::from_millis(2_000)).await;
+    w.set_yield_cfg(YieldCfg::default());
+    let tv = pid_val(&target);
+    let g = hist.lock().unwrap();
+    for i in 1..=n {
+        let exits = g.events.iter().filter(|e| e.proc_idx == i && matches!(&e.got, Got::Exit { from, .. } if *from == tv)).count();
+        let want = usize::from(linked[i]);
+        if exits < want {
+            w.violation("missing-exit-notice", format!("crowd of {}: process {} was linked to the process that failed and is alive, but its handler saw no exit notice", n, i));
+        } else if exits > want {
+            w.violation("extra-exit-notice", format!("crowd of {}: process {} saw {} exit notices from the process that failed, {} expected", n, i, exits, want));
+        }
+        for rf in &mons[i] {
+            let rv = ref_val(rf);
+            let c = g.events.iter().filter(|e| e.proc_idx == i && matches!(&e.got, Got::MonitorExit { monitored, reference, .. } if *monitored == tv && *reference == rv)).count();
+            if c == 0 {
+                w.violation("missing-monitor-notice", format!("crowd of {}: process {} monitored the process that failed (reference still in force) and is alive, but got no notice for it", n, i));
+            } else if c > 1 {
+                w.violation("extra-monitor-notice", format!("crowd of {}: process {} got {} notices for one monitor reference", n, i, c));
+            }
+        }
+        let all_mon = g.events.iter().filter(|e| e.proc_idx == i && matches!(&e.got, Got::MonitorExit { .. })).count();
+        if all_mon > mons[i].len() {
+            w.violation("extra-monitor-notice", format!("crowd of {}: process {} got {} monitor notices with {} references in force", n, i, all_mon, mons[i].len()));
+        }
+        if g.events.iter().any(|e| e.proc_idx == i && matches!(&e.got, Got::Failed | Got::Terminate)) {
+            w.violation("bystander-terminated", format!("crowd of {}: process {} ended although only the watched process failed", n, i));
+        }
+    }
+    drop(g);
+    if node.send(&target, from_val(&Val::atom("late"))).await.is_ok() {
+        w.violation("dead-pid-accepts", "a send to the process that failed was accepted after quiescence".to_string());
+    }
+    if node.process_count().await != n {
+        w.violation("process-count", format!("process_count() is {} with {} live processes", node.process_count().await, n));
+    }
 }
 
 async fn procs(w: &Arc<World>, p: &Plan) {
